@@ -33,6 +33,14 @@
       agree on the result.  Without it the UNCHANGED code is hash-seed dependent
       (`Transformer._parse_include` iterates the `includes` set unsorted):
       C16_include_order_counterexample, reported as a finding.
+    * C16_fixpoint_reached / C16_fixpoint_walk_order (which nodes end up introspectable="0"):
+      every walk visits every node (the visiting orders are permutations of the namespace).  The
+      model keeps the nodes at fixed indices and renders "the declarations were written in
+      another order" as "the walks visit them in another order"; that a shuffled namespace IS the
+      same nodes under another visiting order (references are by name) is not proved: the harness
+      compares the model with the real pass on shuffled declaration orders (c16.fixpoint).
+      Only the `while True:` loop of `validate` is modelled here (the flags it starts from are
+      taken as given; the whole pass in namespace order is C05's model).
 -/
 import GIVerif.Lemmas.Order
 import GIVerif.Gen.Order
@@ -125,6 +133,30 @@ theorem C16_mirrored_functions :
     ∧ Gen.Order.blockDictDigest = "059329ac784e736e"
     ∧ Gen.Order.resolveCtypeDigest = "9fcb4183aaab8a28"
     ∧ Gen.Order.splitMatchesDigest = "63f4c4273558e099" := by
+  decide
+
+/-- The loop of `IntrospectablePass.validate`, the two walks it repeats, `Namespace.walk` and
+    `_type_is_introspectable` are the versions `loopI` / `aliasStepI` / `callStepI` / `condI`
+    mirror (the count is taken BEFORE the alias walk and compared after the callable walk). -/
+theorem C16_fixpoint_source :
+    Gen.Order.validateShape =
+      ["self._namespace.walk(self._introspectable_alias_analysis)",
+       "self._namespace.walk(self._propagate_callable_skips)", "self._namespace.walk(self._analyze_node)",
+       "while True:", "    before = self._count_introspectable()",
+       "    self._namespace.walk(self._introspectable_alias_analysis)",
+       "    self._namespace.walk(self._introspectable_callable_analysis)",
+       "    if self._count_introspectable() == before:", "        break",
+       "self._namespace.walk(self._introspectable_property_analysis)",
+       "self._namespace.walk(self._introspectable_pass3)",
+       "self._namespace.walk(self._remove_non_reachable_backcompat_copies)",
+       "self._namespace.walk(self._introspectable_symbol_collisions)"]
+    ∧ Gen.Order.aliasAnalysisShape =
+      ["if isinstance(obj, ast.Alias):", "    if not self._type_is_introspectable(obj.target):",
+       "        obj.introspectable = False", "return True"]
+    ∧ Gen.Order.namespaceWalkShape = ["for node in self.values():", "    node.walk(callback, [])"]
+    ∧ Gen.Order.callableAnalysisDigest = "ad7dfb80ecac83c6"
+    ∧ Gen.Order.typeIsIntrospectableDigest = "b8f35ebf15a48137"
+    ∧ Gen.Order.countIntrospectableDigest = "1ab1ddf3c6339196" := by
   decide
 
 /-- the set iterations that are NOT wrapped in `sorted(...)`, each justified:
@@ -490,8 +522,62 @@ theorem C16_include_order_counterexample :
   revert this
   decide
 
+/-! ### which nodes are introspectable="0" does not depend on the order of the declarations -/
+
+/-- `cntI tf + 1` rounds always suffice, and the loop of `IntrospectablePass.validate` ends in a
+    state that no visit of either walk changes, having only cleared flags. -/
+theorem C16_fixpoint_reached (nodes : List INode) (ord : List Nat) (tf : List Bool)
+    (hord : ∀ i, i < nodes.length → i ∈ ord) :
+    StableI nodes (loopI nodes ord (cntI tf + 1) tf) ∧ FLe (loopI nodes ord (cntI tf + 1) tf) tf :=
+  ⟨stable_of_round_fixed hord (loopI_fixed nodes ord _ tf (Nat.lt_succ_self _)), loopI_le nodes ord _ tf⟩
+
+/-- ... and that state is the GREATEST stable state below the start: nothing is marked
+    introspectable="0" that the rules do not force, whatever the visiting order. -/
+theorem C16_fixpoint_greatest (nodes : List INode) (ord : List Nat) (tf q : List Bool)
+    (hq : StableI nodes q) (hle : FLe q tf) : FLe q (loopI nodes ord (cntI tf + 1) tf) :=
+  stable_le_loop hq ord _ tf hle
+
+/-- Hence the flags after the loop are the same for EVERY order in which `Namespace.walk` visits
+    the nodes (every declaration order), aliases before or after their targets included. -/
+theorem C16_fixpoint_walk_order (nodes : List INode) (ord ord' : List Nat) (tf : List Bool)
+    (hord : ∀ i, i < nodes.length → i ∈ ord) (hord' : ∀ i, i < nodes.length → i ∈ ord') :
+    loopI nodes ord' (cntI tf + 1) tf = loopI nodes ord (cntI tf + 1) tf := by
+  obtain ⟨s, l⟩ := C16_fixpoint_reached nodes ord tf hord
+  obtain ⟨s', l'⟩ := C16_fixpoint_reached nodes ord' tf hord'
+  exact (C16_fixpoint_greatest nodes ord tf _ s' l').antisymm (C16_fixpoint_greatest nodes ord' tf _ s l)
+
+/-- the same, for visiting orders given as permutations of the namespace -/
+theorem C16_fixpoint_perm (nodes : List INode) (ord ord' : List Nat) (tf : List Bool)
+    (hp : ord.Perm (List.range nodes.length)) (hp' : ord'.Perm ord) :
+    loopI nodes ord' (cntI tf + 1) tf = loopI nodes ord (cntI tf + 1) tf :=
+  C16_fixpoint_walk_order nodes ord ord' tf
+    (fun _ hi => hp.symm.subset (List.mem_range.mpr hi))
+    (fun _ hi => (hp'.trans hp).symm.subset (List.mem_range.mpr hi))
+
+/-- a callback that cannot be bound (`ok := false`), an alias of it, an alias of that alias, an
+    alias of that one, and a function taking the last alias -/
+def chainNodes : List INode :=
+  [⟨.callable, false, false, []⟩, ⟨.alias, false, true, [0]⟩, ⟨.alias, false, true, [1]⟩,
+   ⟨.alias, false, true, [2]⟩, ⟨.callable, false, true, [3]⟩]
+
+/-- Why the loop is needed (the pass order before commit 51936cf ran each walk a fixed number of
+    times): ONE round is order dependent.  Start: the callback has been found unbindable by
+    `_analyze_node`.  Aliases visited after their targets are all cleared in one round, visited
+    before them only the first one is (and the function keeps its flag). -/
+theorem C16_single_round_order_counterexample :
+    roundI chainNodes [0, 1, 2, 3, 4] [false, true, true, true, true] = [false, false, false, false, false]
+    ∧ roundI chainNodes [4, 3, 2, 1, 0] [false, true, true, true, true] = [false, false, true, true, true]
+    ∧ [4, 3, 2, 1, 0].Perm [0, 1, 2, 3, 4] := by
+  refine ⟨by decide, by decide, by decide⟩
+
 /-! ### non-vacuity: concrete instances of the hypotheses and conclusions -/
 
+example : loopI chainNodes [4, 3, 2, 1, 0] (cntI [false, true, true, true, true] + 1) [false, true, true, true, true]
+    = [false, false, false, false, false] := by decide
+example : ∀ i, i < chainNodes.length → i ∈ [4, 3, 2, 1, 0] := by decide
+example : [4, 3, 2, 1, 0].Perm (List.range chainNodes.length) := by decide
+example : StableI chainNodes [false, false, false, false, false] := (stableI_iff _ _).mp (by decide)
+example : FLe ([false, true, true, true, true].set 1 false) [false, true, true, true, true] := fle_set_false _ _
 example : sortedStrs ["glib-2.0".toList, "gio-2.0".toList, "Zlib".toList]
     = ["Zlib".toList, "gio-2.0".toList, "glib-2.0".toList] := by decide
 example : (["b".toList, "a".toList, "c".toList].map id).Nodup := by decide
